@@ -33,14 +33,15 @@ def txt(n):
 EFFECT_ATTRS = set()
 
 
-def _is_pure(e, local_mutators_ok=False):
+def _is_pure(e, local_mutators_ok=False, reads_ok=False):
+    """reads_ok: reading a computed property is not an effect (for writing an expression twice at the same place)"""
     if isinstance(e, ast.Lambda):
         return True
     for x in _walk_no_defs(e):
         if local_mutators_ok and isinstance(x, ast.Call) and isinstance(x.func, ast.Attribute) and x.func.attr in MUTATORS and isinstance(x.func.value, ast.Name) \
                 and x.func.value.id not in ("self", "cls"):
             continue  # `local.append(x)`: changes a local container, not the state of an object
-        if isinstance(x, ast.Attribute) and isinstance(x.ctx, ast.Load) and x.attr in EFFECT_ATTRS:
+        if isinstance(x, ast.Attribute) and isinstance(x.ctx, ast.Load) and x.attr in EFFECT_ATTRS and not reads_ok:
             return False
         if isinstance(x, ast.Call):
             f = x.func
@@ -376,7 +377,7 @@ class Canon:
         if any(isinstance(x, (ast.Yield, ast.YieldFrom, ast.Await, ast.Global, ast.Nonlocal)) for x in ast.walk(h.node)):
             return None
         n_stmts = sum(1 for b in _strip_doc(h.node.body) for x in ast.walk(b) if isinstance(x, ast.stmt))   # (the docstring does not count)
-        if self._refs.get(name, 0) > 1 and n_stmts > (10 if self._refs.get(name, 0) == 2 else 3):
+        if self._refs.get(name, 0) > 1 and n_stmts > (10 if self._refs.get(name, 0) == 2 else (6 if self._refs.get(name, 0) <= 4 else 3)):
             return None  # a helper shared by several callers is only written out when it is small
         return h
 
@@ -698,6 +699,14 @@ class Canon:
         node = _AppendLoops().visit(node)
         node = _Small().visit(node)
         node = self._close(node)
+        if inline:
+            # helper calls that could not be bound before (arguments passed through a local dict: `self._h(a, **_shared)`) are plain calls now
+            before = sum(self._inlined.values())
+            body2 = self._inline_block(f, copy.deepcopy(node.body))
+            if sum(self._inlined.values()) != before:
+                node.body = _Blocks().block(body2, "func")
+                node = _Small().visit(_AppendLoops().visit(node))
+                node = self._close(node)
         node = _adjacent_def_use(node)
         node = self._close(node)
         node = _Small().visit(node)
@@ -706,7 +715,7 @@ class Canon:
             new = copy.deepcopy(sub)
             new.body = _Blocks().block(_strip_doc(new.body), "func")
             new = _AppendLoops().visit(_Small().visit(new))
-            new = self._close(new)
+            new = _Small().visit(self._close(new))
             new.body = _hoist(_Blocks().block(new.body, "func"))
             sub.body = new.body
         node = _FoldConst().visit(node)
@@ -894,6 +903,18 @@ class _DefToLambda(ast.NodeTransformer):
             self.generic_visit(n)
             return n
         body = _strip_doc(n.body)
+        # leading pure single assignments are part of the returned expression: `a = E1; return f(a)` is `return f(E1)`
+        env, params = {}, {x.arg for x in n.args.args + n.args.kwonlyargs + n.args.posonlyargs}
+        while len(body) > 1 and isinstance(body[0], ast.Assign) and len(body[0].targets) == 1 and isinstance(body[0].targets[0], ast.Name) and body[0].targets[0].id not in params \
+                and body[0].targets[0].id not in env and _is_pure(body[0].value):
+            t_ = _SubstAll(env)
+            t_._top = n
+            env[body[0].targets[0].id] = t_.visit(copy.deepcopy(body[0].value))
+            body = body[1:]
+        if env and len(body) == 1 and isinstance(body[0], ast.Return) and body[0].value is not None:
+            t_ = _SubstAll(env)
+            t_._top = n
+            body = [ast.copy_location(ast.Return(value=t_.visit(copy.deepcopy(body[0].value))), body[0])]
         if len(body) == 1 and isinstance(body[0], ast.Return) and body[0].value is not None and not n.decorator_list:
             return ast.copy_location(ast.Assign(targets=[ast.Name(id=n.name, ctx=ast.Store())], value=ast.Lambda(args=n.args, body=body[0].value), lineno=n.lineno), n)
         return n
@@ -1389,6 +1410,17 @@ class _Small(ast.NodeTransformer):
 
     def visit_Call(self, n):
         self.generic_visit(n)
+        # (lambda p, q: E)(a, b) -> E[p:=a, q:=b]   (plain positional parameters; an argument with an effect may be used at most once)
+        if isinstance(n.func, ast.Lambda) and not n.keywords and not any(isinstance(a, ast.Starred) for a in n.args):
+            la = n.func.args
+            # (a nested lambda / generator in the body captures the parameter per call - `(lambda f: lambda: g(f))(x)` is not `lambda: g(x)`)
+            if len(la.args) == len(n.args) and not (la.defaults or la.kwonlyargs or la.vararg or la.kwarg or la.posonlyargs) \
+                    and not any(isinstance(x, (ast.Lambda, ast.GeneratorExp)) for x in ast.walk(n.func.body)):
+                uses = {p_.arg: sum(1 for x in ast.walk(n.func.body) if isinstance(x, ast.Name) and x.id == p_.arg) for p_ in la.args}
+                if all(_is_pure(a, reads_ok=True) or uses[p_.arg] <= 1 for p_, a in zip(la.args, n.args)):
+                    t_ = _SubstAll({p_.arg: a for p_, a in zip(la.args, n.args)})
+                    t_._top = n
+                    return self.visit(t_.visit(copy.deepcopy(n.func.body)))
         # f(*(a, b)) -> f(a, b)
         if any(isinstance(a, ast.Starred) and isinstance(a.value, (ast.Tuple, ast.List)) for a in n.args):
             args = []
@@ -1398,6 +1430,24 @@ class _Small(ast.NodeTransformer):
                 else:
                     args.append(a)
             n.args = args
+        return n
+
+    def visit_Subscript(self, n):
+        self.generic_visit(n)
+        # x[slice(a, b)] -> x[a:b]   (also inside a tuple index)
+        def as_slice(e):
+            if isinstance(e, ast.Call) and isinstance(e.func, ast.Name) and e.func.id == "slice" and not e.keywords and 1 <= len(e.args) <= 3 and not any(isinstance(a, ast.Starred) for a in e.args):
+                a = list(e.args)
+                if len(a) == 1:
+                    a = [None, a[0]]
+                a = [None if isinstance(x, ast.Constant) and x.value is None else x for x in a] + [None]
+                return ast.Slice(lower=a[0], upper=a[1], step=a[2])
+            return e
+
+        if isinstance(n.slice, ast.Tuple):
+            n.slice = ast.Tuple(elts=[as_slice(e) for e in n.slice.elts], ctx=ast.Load())
+        else:
+            n.slice = as_slice(n.slice)
         return n
 
     def visit_Lambda(self, n):
@@ -1425,6 +1475,29 @@ class _FoldConst(ast.NodeTransformer):
         self.generic_visit(n)
         if isinstance(n.test, ast.Constant) and isinstance(n.test.value, bool):
             return n.body if n.test.value else n.orelse
+        return n
+
+    def visit_BinOp(self, n):
+        # '%s%s' % ('name', i)  ->  'name%s' % i     (only plain %s fields; literal text arguments are written into the format)
+        self.generic_visit(n)
+        if isinstance(n.op, ast.Mod) and isinstance(n.left, ast.Constant) and isinstance(n.left.value, str) and isinstance(n.right, ast.Tuple) \
+                and any(isinstance(e, ast.Constant) and isinstance(e.value, str) for e in n.right.elts):
+            import re as _re
+
+            parts = _re.split(r"(%%|%s)", n.left.value)
+            fields = [i for i, p_ in enumerate(parts) if p_ == "%s"]
+            if len(fields) == len(n.right.elts) and not _re.search(r"%(?![s%])", n.left.value) and not any(isinstance(e, ast.Starred) for e in n.right.elts):
+                rest = []
+                for i, e in zip(fields, n.right.elts):
+                    if isinstance(e, ast.Constant) and isinstance(e.value, str):
+                        parts[i] = e.value.replace("%", "%%")
+                    else:
+                        rest.append(e)
+                fmt = ast.copy_location(ast.Constant(value="".join(parts)), n.left)
+                if not rest:
+                    return ast.copy_location(ast.Constant(value="".join(parts).replace("%%", "%")), n)
+                right = rest[0] if len(rest) == 1 and not isinstance(rest[0], ast.Tuple) else ast.Tuple(elts=rest, ctx=ast.Load())
+                return ast.copy_location(ast.BinOp(left=fmt, op=ast.Mod(), right=right), n)
         return n
 
     def visit_If(self, n):
